@@ -29,4 +29,63 @@ def denote (v : Bytes) : Option Nat :=
 /-- Largest duration the property quantifies over: 99 999 999 hours (+ anything below the next hour). -/
 def maxDuration : Nat := 100000000 * 3600 * 1000000000 - 1
 
+/-! ### Deadline enforcement (last sentence of the property), stated without the model
+
+"A call is cut off with a CANCELLED 'Timeout expired' status once the shorter of the caller's
+grpc-timeout and the locally configured timeout has elapsed, and is unaffected if it finishes
+before that." -/
+
+/-- The shortest of the deadlines that are present (naive fold). -/
+def shortest : List (Option Nat) → Option Nat
+  | [] => none
+  | none :: ds => shortest ds
+  | some d :: ds =>
+    match shortest ds with
+    | none => some d
+    | some m => some (if d ≤ m then d else m)
+
+/-- What the caller must observe, and when (virtual ns after the call started). -/
+inductive Expect
+  | finishes (t : Nat)    -- the call's own result, at the time the peer finished it
+  | cancelled (t : Nat)   -- CANCELLED "Timeout expired" at `t`
+  | pending               -- nothing (no deadline and the peer never finishes)
+deriving DecidableEq, Repr
+
+/-- With the shortest deadline `m` in hand. -/
+def expected' (m finish : Option Nat) : Expect :=
+  match m, finish with
+  | none, none => .pending
+  | none, some l => .finishes l
+  | some m, none => .cancelled m
+  | some m, some l => if m < l then .cancelled m else .finishes l
+
+/-- `deadlines`: every deadline in force where the observation is made; `finish`: when the call
+would finish if left alone (`none` = never). -/
+def expected (deadlines : List (Option Nat)) (finish : Option Nat) : Expect :=
+  expected' (shortest deadlines) finish
+
+/-- The status the property names: CANCELLED (code 1 in gRPC's statuscodes.md), "Timeout expired". -/
+def cancelledCode : Nat := 1
+def expiredText : Bytes := "Timeout expired".toUTF8.toList
+
+/-- Unit sizes in ns, most precise first (PROTOCOL-HTTP2.md: n, u, m, S, M, H). -/
+def unitSizes : List Nat := [1, 1000, 1000000, 1000000000, 60 * 1000000000, 3600 * 1000000000]
+
+/-- The most precise unit in which `d` needs at most 8 digits (first sentence of the property). -/
+def chosenUnit (d : Nat) : Option Nat := unitSizes.find? (fun k => d / k ≤ 99999999)
+
+/-- The deadline a caller's timeout `d` amounts to once written as a conformant value in the most
+precise unit that holds it: `d` rounded down to that unit.  (Never longer than requested, less
+than one unit lost.) -/
+def onWire (d : Nat) : Option Nat := (chosenUnit d).map (fun k => d / k * k)
+
+/-- "The locally configured timeout" after a sequence of builder calls: what the most recent
+`.timeout(..)` call said (`some t` = a `.timeout(t)` call, `none` = any other builder call). -/
+def lastSet : List (Option Nat) → Option Nat
+  | [] => none
+  | x :: xs =>
+    match lastSet xs with
+    | some t => some t
+    | none => x
+
 end Spec.Timeout
